@@ -8,6 +8,8 @@ Record ccase := mkC {
   c_isint : list bool; c_keys : list key; c_sizes : list nat; c_cond : cond;
   c_coarse : nat; c_minmarks : nat; c_probes : list (nat * nat); c_rects : list (list range);
   c_detail : bool;
+  (* checkInAnyRange driven with recorded call-back marks: (s, e), visited rectangles with their marks, final mark *)
+  c_cbs : list ((nat * nat) * list (list range * (bool * bool)) * (Z * Z));
   (* implementation observables *)
   i_conderr : bool;
   i_scan : nat;                    (* 0 = ranges returned, 1 = error returned, 2 = panic *)
@@ -28,6 +30,14 @@ Fixpoint list_eqb {A} (eqb : A -> A -> bool) (a b : list A) : bool :=
 Definition pair_eqb (a b : nat * nat) := Nat.eqb (fst a) (fst b) && Nat.eqb (snd a) (snd b).
 Definition b2z (b : bool) : Z := if b then 1%Z else 0%Z.
 
+Definition range_eqb (a b : range) : bool :=
+  beq (lo a) (lo b) && beq (hi a) (hi b) && Bool.eqb (loi a) (loi b) && Bool.eqb (hii a) (hii b).
+Fixpoint lookup_cb (tbl : list (list range * (bool * bool))) (rs : list range) : mark :=
+  match tbl with
+  | [] => mkM false true
+  | (k, (t, f)) :: r => if list_eqb range_eqb k rs then mkM t f else lookup_cb r rs
+  end.
+
 Definition scan_matches (c : ccase) (m : scan_result) : bool :=
   match m, i_scan c with
   | ScanErr, 1 => true
@@ -36,7 +46,7 @@ Definition scan_matches (c : ccase) (m : scan_result) : bool :=
   end.
 
 (* per variant: (mismatch mask, model cover per fragment, model may_be per probe).
-   mask bits: 1 scan, 2 may_be, 4 marks, 8 condition error *)
+   mask bits: 1 scan, 2 may_be, 4 marks, 8 condition error, 16 checkInAnyRange with recorded call-back marks *)
 Definition eval_variant (c : ccase) (rpn : list elem) (V : variant) : nat * list bool * list bool :=
   let n := length (c_sizes c) in
   let idx := build_index (c_sizes c) (c_keys c) in
@@ -50,7 +60,15 @@ Definition eval_variant (c : ccase) (rpn : list elem) (V : variant) : nat * list
   let b1 := if scan_matches c sc then 0 else 1 in
   let b2 := if list_eqb Z.eqb (map b2z mb) (i_maybe c) then 0 else 2 in
   let b4 := if list_eqb (fun a b => Z.eqb (fst a) (fst b) && Z.eqb (snd a) (snd b)) marks (i_marks c) then 0 else 4 in
-  (b1 + b2 + b4, (if c_detail c then cover else []), (if c_detail c then mb else [])).
+  let used := used_keys rpn in
+  let cbok := forallb (fun x =>
+                let '(se, tbl, fin) := x in
+                let m := ciar V (lookup_cb tbl) (c_isint c)
+                              (map kb (firstn used (nth (fst se) idx []))) (map kb (firstn used (nth (snd se) idx [])))
+                              true true [] in
+                Z.eqb (b2z (can_t m)) (fst fin) && Z.eqb (b2z (can_f m)) (snd fin)) (c_cbs c) in
+  let b16 := if cbok then 0 else 16 in
+  (b1 + b2 + b4 + b16, (if c_detail c then cover else []), (if c_detail c then mb else [])).
 
 Definition eval_case (c : ccase) : list (nat * list bool * list bool) :=
   match compile (c_isint c) (c_cond c) with
